@@ -413,6 +413,9 @@ def adt_key(kind, op, why):
     """clobber = an operation changed an OLDER live version (one key per library: any operation may be the one that trips
     over shared structure); otherwise library:operation-family:what-was-wrong (obs / val / probe / error).
     The linear-update variant of an operation shares the key of the plain one."""
+    if kind == "queue" and why in ("clobber", "probe"):
+        # a mutator that leaves the queue's front/back pointers inconsistent shows either way, at any later mutator
+        return "queue:end-pointers:probe"
     if why == "clobber":
         return "%s:clobber" % kind
     base = op[:-1] if op.endswith("!") and op[:-1] and kind != "queue" else op
@@ -493,20 +496,19 @@ def adt_kind(chk, sc, build, kind):
                     out["samples"].append({"kind": kind, "offset": str(offs[hi]), "history": [
                         dict(op=e["op"], obs=e["obs"], new=e["val"]) for i, e in ops[:14]]})
                 continue
-            # the judged prefix of a rejected history still counts its accepted operations as exercised
+            # every rejection is reported: after a rejection AdtTrace poisons exactly the versions that can no longer be
+            # trusted and does not judge operations that use them, so later rejections stand on their own
             first = bad[0][0]
             for i, e in ops:
                 if i < first:
                     out["classes"].add((kind, e["op"]["op"]))
-            # only the FIRST rejection of a history is reported: afterwards the store follows the implementation
-            # and later disagreements may be consequences of the first one
-            for i, e in bad[:1]:
+            for i, e in bad:
                 op, why = rejidx[i]
                 key = adt_key(kind, op, why)
                 prefix = [x for j, x in ops if j <= i]
                 old = out["rejs"].get(key)
                 # prefer a history in which this is the first rejection, then the shortest
-                rank = (0 if i == first else 1, len(prefix))
+                rank = (0 if i == first else 1, len(prefix))          # prefer a history where it is the first rejection
                 if old is None or rank < old["rank"]:
                     out["rejs"][key] = dict(key=key, kind=kind, op=op, why=why, offset=str(offs[hi]), nops=len(prefix), events=prefix,
                                             rank=rank, count=(old["count"] if old else 0) + 1)
@@ -574,7 +576,7 @@ def containers(chk, sc, build):
                         json.dumps(last["val"]), json.dumps(last.get("chg")), (" error " + last.get("msg", "")) if last.get("err") else ""),
                        "adt_%s.json" % fname(key),
                        {"key": key, "kind": c["kind"], "why": c["why"], "rejected_operations_of_this_kind": c["count"],
-                        "offset": c["offset"], "history": [e["op"] for e in c["events"]], "events": c["events"],
+                        "offset": c["offset"], "history": [dict(e["op"], n=e["n"]) for e in c["events"]], "events": c["events"],
                         "rerun": "render the history with c18.hist_sexp() into a file, run harness/scm/c18adt.scm <kind> 16 <file>, validate with spec/AdtTrace.tla (cfg from c18.adt_cfg)"})
         chk.cov.setdefault("containers", {})[res["kind"]] = dict(histories=res["hists"], accepted=res["accepted"],
                                                                   accepted_operations=res["ops"], rejected_kinds=sorted(res["rejs"]))
@@ -599,8 +601,8 @@ def binding_selftest(chk, sc, build):
     vlib.write_ndjson(t, evs)
     if not trace_verdict(validate_sort(sc, t, to=300), len(evs), "selftest sort"):
         raise Broken("selftest: a corrupted sort result was accepted")
-    h = [dict(op="mapping", v=0, w=0, k=0, x=1, ks=[3, 1, 2]), dict(op="delete", v=1, w=0, k=0, x=0, ks=[1]),
-         dict(op="ref", v=1, w=0, k=1, x=0, ks=[]), dict(op="peek", v=1, w=0, k=0, x=0, ks=[])]
+    h = [dict(op="mapping", v=0, w=0, k=0, x=1, ks=[3, 1, 2], n=1), dict(op="delete", v=1, w=0, k=0, x=0, ks=[1], n=1),
+         dict(op="ref", v=1, w=0, k=1, x=0, ks=[], n=0), dict(op="peek", v=1, w=0, k=0, x=0, ks=[], n=0)]
     tr = adt_run(build, sc, "map", 9002, [h])
     if trace_verdict_adt(adt_validate(sc, "map", tr, to=300), "selftest map"):
         raise Broken("selftest: the uncorrupted mapping trace is rejected")
@@ -703,7 +705,7 @@ def adt_gen(sc, kind, num, depth, seed):
     vlib.require_tlc_ok(r, "AdtGen %s" % kind)
     hs = []
     for h in tlc_hists(r):
-        ops = h["h"] + [dict(op="peek", v=v, w=0, k=0, x=0, ks=[]) for v in h["live"]]
+        ops = [dict(e["o"], n=e["n"]) for e in h["h"]] + [dict(op="peek", v=v, w=0, k=0, x=0, ks=[], n=0) for v in h["live"]]
         hs.append(ops)
     if len(hs) != num:
         raise Broken("AdtGen %s: %d histories instead of %d" % (kind, len(hs), num))
@@ -711,7 +713,7 @@ def adt_gen(sc, kind, num, depth, seed):
 
 
 def hist_sexp(ops, offset=0):
-    return "(%d %s)" % (offset, " ".join('("%s" %d %d %d %d (%s))' % (o["op"], o["v"], o["w"], o["k"], o["x"], " ".join(map(str, o["ks"])))
+    return "(%d %s)" % (offset, " ".join('("%s" %d %d %d %d (%s) %d)' % (o["op"], o["v"], o["w"], o["k"], o["x"], " ".join(map(str, o["ks"])), o.get("n", 0))
                                          for o in ops))
 
 
